@@ -84,6 +84,11 @@ func (f *in) Listen(onMsg func(msg []byte, milliseconds int32), conf drivers.Lis
 	}
 
 	f.rd = drivers.NewReader(conf, func(m []byte, ms int32) {
+		// the listener may have stopped itself while handling an earlier message of the same Send
+		if f.stopListening {
+			return
+		}
+
 		msg := midi.Message(m)
 
 		if msg.Is(midi.ActiveSenseMsg) && !conf.ActiveSense {
